@@ -463,7 +463,7 @@ def wrap(x, position):
 
 def run(ctx):
     rng = ctx.rng
-    for sc in range(ctx.pick(60, 2500)):
+    for sc in range(ctx.pick(200, 2500)):
         if ctx.time_left() < 10:
             ctx.unsure("time budget exhausted after %d scenes" % sc)
             break
